@@ -473,7 +473,7 @@ def _to_dnf(schema: dict, config: NormalizationConfig) -> dict:
         ]
         for idx, _ in enumerate(normalized_sub_schemas):
             options = merge([
-                invert(i, config) if sub_idx == idx else i
+                i if sub_idx == idx else invert(i, config)
                 for sub_idx, i in enumerate(normalized_sub_schemas)
             ], config)
             one_ofs.extend(options['anyOf'])
